@@ -111,6 +111,18 @@ func decodeError(err error) string {
 	return err.Error()
 }
 
+// streamError is what a failure to read and decode a response body means to the caller.
+// A body that is not the JSON we expect is a bad response from the server. A request that
+// was cancelled or timed out while the body was being read is not a response at all:
+// it's the same transport error it would be if it happened before the headers arrived.
+func streamError(status string, err error) error {
+	var netErr net.Error
+	if errors.Is(err, context.Canceled) || errors.Is(err, context.DeadlineExceeded) || (errors.As(err, &netErr) && netErr.Timeout()) {
+		return err
+	}
+	return APIError{Status: status, ErrorType: v1.ErrBadResponse, Err: fmt.Sprintf("JSON parse error: %s", err)}
+}
+
 func tryDecodingAPIError(resp *http.Response) error {
 	slog.Debug("Trying to parse Prometheus error response", slog.Int("code", resp.StatusCode))
 
